@@ -215,7 +215,22 @@ OnQEnd ==
   /\ \A i \in 1..Len(Ev.completions) : Ev.completions[i] = 1 /\ Ev.destroys[i] = 1
   /\ UNCHANGED <<kind, cur, db>> /\ Step
 
-TraceNext == OnQCall \/ OnQCb \/ OnQEnd \/ OnCfg \/ OnEndScenario \/ OnWr \/ OnCreate \/ OnState \/ OnCallOther \/ OnReq \/ OnCall \/ OnWire \/ OnCb
+(***************************************************************************)
+(* retry strategy (configuration passes through unchanged): a channel      *)
+(* created with {min_delay, max_delay} towards a port that refuses         *)
+(* connections attempts again after min, 2 min, 4 min ... capped at max.   *)
+(* Real time: never earlier than prescribed, and not later than the        *)
+(* prescribed delay plus scheduling slack (the refused connect itself).    *)
+(***************************************************************************)
+Slack == 450
+OnRetry ==
+  /\ Is("ffi_retry") /\ kind = "client_retry"
+  /\ Ev.attempts >= Ev.wanted
+  /\ \A k \in 1..Len(Ev.gaps) :
+        LET want == Min2(Ev.min * Pow2(k - 1), Ev.max) IN Ev.gaps[k] >= want /\ Ev.gaps[k] <= want + Slack
+  /\ UNCHANGED <<kind, cur, db>> /\ Step
+
+TraceNext == OnRetry \/ OnQCall \/ OnQCb \/ OnQEnd \/ OnCfg \/ OnEndScenario \/ OnWr \/ OnCreate \/ OnState \/ OnCallOther \/ OnReq \/ OnCall \/ OnWire \/ OnCb
              \/ OnReqEnd \/ OnTxn \/ OnTxnEnd \/ OnDbOp \/ OnDbRead \/ OnStress
 
 TraceSpec == TraceInit /\ [][TraceNext]_vars
